@@ -29,11 +29,11 @@ theorem trySend_sdu (c : Cfg) (t : Tx) : (trySend c t).sdu = t.sdu := by
   · exact trySendLoop_sdu c _ t
 
 theorem sendSdu_inv {c : Cfg} {t : Tx} {f : Bytes} (hcap : c.cap < 65536) (h : TxInv c t)
-    (hok : OpOk c (.send f)) : TxInv c (sendSdu c t f).1 := by
+    (hok : OpOk c (.send f)) : TxInv c (sendSdu c t f).1 ∧ (LogOk t → LogOk (sendSdu c t f).1) := by
   obtain ⟨len, hlen, hm, hfl⟩ := hok
   unfold sendSdu
   split
-  · exact h
+  · exact ⟨h, id⟩
   · next hidle =>
     have hw := writeAt?_some (buf := t.buf) (pos := 0) (d := List.replicate c.llOverhead 0xCC ++ f)
       (by have := h.len; simp only [Cfg.cap, Cfg.overall] at this ⊢; simp; omega)
@@ -53,7 +53,7 @@ theorem sendSdu_inv {c : Cfg} {t : Tx} {f : Bytes} (hcap : c.cap < 65536) (h : T
       · simp only [hmod, List.drop_take]
         congr 1
         simp only [Cfg.overall]; omega
-    exact (trySend_inv key).1
+    exact ⟨(trySend_inv key).1, fun hl => trySend_log key hl⟩
 
 /-- a well formed frame handed to an idle buffer is the SDU the ghost field records -/
 theorem sendSdu_records_frame {c : Cfg} {t : Tx} {f : Bytes} {len : Nat} (h : TxInv c t)
@@ -112,28 +112,36 @@ theorem run_rxInvE {c : Cfg} (hcap : c.cap < 65536) (ops : List Op) :
 structure TxInvS (c : Cfg) (s : S) : Prop where
   cfg : s.cfg = c
   tx : TxInv c s.tx
+  log : LogOk s.tx
 
 theorem txInv_frame {c : Cfg} {t : Tx} (h : TxInv c t) (n : Nat) (l : List Bytes) :
     TxInv c { t with freeTx := n, sent := l } := ⟨h.len, h.noFault, h.maxTx, h.shape, h.st⟩
 
 theorem step_txInv {c : Cfg} {s : S} (hcap : c.cap < 65536) (op : Op) (hok : OpOk c op) (h : TxInvS c s) :
     TxInvS c (step s op).1 := by
-  obtain ⟨hc, ht⟩ := h
+  obtain ⟨hc, ht, hl⟩ := h
   cases op <;> simp only [step]
-  · exact ⟨hc, ht⟩
-  · exact ⟨hc, by rw [hc]; exact (trySend_inv ht).1⟩
-  · exact ⟨hc, ht⟩
-  · exact ⟨hc, ⟨ht.len, ht.noFault, hok, ht.shape, ht.st⟩⟩
-  · exact ⟨hc, txInv_frame ht _ _⟩
-  · exact ⟨hc, by rw [hc]; exact sendSdu_inv hcap ht hok⟩
-  · exact ⟨hc, by rw [hc]; simp only [allocateLl]; exact (trySend_inv ht).1⟩
-  · refine ⟨hc, ?_⟩
-    rw [hc]
-    simp only [sendLl]
-    have := (trySend_inv (c := c) ht).1
-    split
-    · exact this
-    · exact txInv_frame this _ _
+  · exact ⟨hc, ht, hl⟩
+  · exact ⟨hc, by rw [hc]; exact (trySend_inv ht).1, by rw [hc]; exact trySend_log ht hl⟩
+  · exact ⟨hc, ht, hl⟩
+  · exact ⟨hc, ⟨ht.len, ht.noFault, hok, ht.shape, ht.st⟩, hl⟩
+  · exact ⟨hc, txInv_frame ht _ _, hl⟩
+  · exact ⟨hc, by rw [hc]; exact (sendSdu_inv hcap ht hok).1, by rw [hc]; exact (sendSdu_inv hcap ht hok).2 hl⟩
+  · exact ⟨hc, by rw [hc]; simp only [allocateLl]; exact (trySend_inv ht).1,
+           by rw [hc]; simp only [allocateLl]; exact trySend_log ht hl⟩
+  · refine ⟨hc, ?_, ?_⟩
+    · rw [hc]
+      simp only [sendLl]
+      have := (trySend_inv (c := c) ht).1
+      split
+      · exact this
+      · exact txInv_frame this _ _
+    · rw [hc]
+      simp only [sendLl]
+      have := trySend_log (c := c) ht hl
+      split
+      · exact this
+      · exact this
 
 theorem run_txInv {c : Cfg} (hcap : c.cap < 65536) (ops : List Op) (hok : ∀ op ∈ ops, OpOk c op) :
     ∀ {s : S}, TxInvS c s → TxInvS c (run s ops).1 := by
